@@ -97,6 +97,12 @@ def work(args):
         for _ in range(ntr):
             T = (R.choice(SYMS), tuple(F(R.randint(-4, 4)) for _ in range(3)), R.choice(KS))
             trs.append(T)
+        # a fourth transformation puts the origin midway between the operands' base points (origin-symmetric configuration)
+        def base_pt(o):
+            return o[1] if o[0] not in 'GB' else (o[1][0] if o[0] == 'G' else o[1][0][0])
+        mid = tuple((x + y) / 2 for x, y in zip(base_pt(A), base_pt(B)))
+        if all(c.denominator <= 8 for c in mid):
+            trs.append((SYMS[0], tuple(-c for c in mid), F(1)))
         rec = dict(A=A, B=B, cls=cls, trs=trs)
         try:
             rec['base'] = observe(impl, A, B)
@@ -110,6 +116,48 @@ def work(args):
         except Exception as e:
             rec['exc'] = '%s: %s' % (type(e).__name__, str(e)[:100])
         out.append(rec)
+    return out
+
+
+def builder_work(args):
+    """shape builders under the 48 symmetries: area / volume / counts must not depend on the axis the normal points along"""
+    seed, n, idx = args
+    from .. import impl
+    import Geometry3D as g3
+    from ..impl import Point, Vector
+    R = random.Random(seed)
+    out = []
+    for i in range(n):
+        nrm = tuple(F(R.randint(-3, 3)) for _ in range(3))
+        if nrm == (0, 0, 0):
+            nrm = (F(0), F(1), F(1))
+        if R.random() < 0.4:
+            z = R.randrange(3)
+            nrm = tuple(F(0) if t == z else c for t, c in enumerate(nrm))
+            if nrm == (0, 0, 0):
+                nrm = (F(1), F(0), F(0))
+        c = tuple(F(R.randint(-8, 8), 2) for _ in range(3))
+        r = R.choice([0.5, 1.0, 2.0, 3.5])
+        nn = R.randint(3, 12)
+        kind = R.choice(['Circle', 'Cylinder', 'Cone'])
+        sym = R.choice(SYMS)
+
+        def build(center, normal):
+            cp, dv = Point(*[float(x) for x in center]), Vector(*[float(x) for x in normal])
+            if kind == 'Circle':
+                o = g3.Circle(cp, dv, r, nn)
+                return ('ok', (len(o.points), o.area(), o.length()))
+            o = g3.Cylinder(cp, r, dv, nn) if kind == 'Cylinder' else g3.Cone(cp, r, dv, nn)
+            return ('ok', (len(o.point_set), len(o.segment_set), len(o.convex_polygons), o.area(), o.volume()))
+        try:
+            b0 = build(c, nrm)
+        except Exception as e:
+            b0 = ('exc', type(e).__name__)
+        try:
+            b1 = build(sp(sym, c), sp(sym, nrm))
+        except Exception as e:
+            b1 = ('exc', type(e).__name__)
+        out.append(dict(kind=kind, c=c, n=nrm, r=r, nn=nn, sym=sym, b0=b0, b1=b1))
     return out
 
 
@@ -178,6 +226,22 @@ def run(ctx, scale=1):
             ctx.stats['DISAGREE'] += 1
             ctx.violation(tkey, 'a = %s, b = %s under permutation %s signs %s translation (%s) scale %s: %s' % (tok(A)[:150], tok(B)[:150], sym[0], sym[1], gen.tv(t), k, '; '.join(pr[:3])),
                           dict(a=gen.jsonable(A), b=gen.jsonable(B), perm=list(sym[0]), signs=list(sym[1]), t=gen.jsonable(t), k=gen.fr(k)))
+    # builders under symmetries
+    brecs = []
+    for part in core.pmap(builder_work, core.chunks(ctx, ctx.n(400, 8000) * scale, per=40)):
+        brecs.extend(part)
+    for r in brecs:
+        key = '%s(c=%s, normal=%s, r=%s, n=%d) vs image under %s' % (r['kind'], gen.tv(r['c']), gen.tv(r['n']), r['r'], r['nn'], r['sym'])
+        ctx.count(key)
+        ctx.dist['builder ' + r['kind']] += 1
+        b0, b1 = r['b0'], r['b1']
+        ok = b0[0] == b1[0] == 'ok' and all((x == y) if isinstance(x, int) else close(y, x, 1e-9) for x, y in zip(b0[1], b1[1]))
+        if ok:
+            ctx.stats['agree builders'] += 1
+        else:
+            ctx.stats['DISAGREE builders'] += 1
+            ctx.violation(key, key + ': %s but the image gives %s (counts / area / volume must be invariant)' % (b0[1:], b1[1:]),
+                          dict(builder=r['kind'], c=gen.jsonable(r['c']), n=gen.jsonable(r['n']), r=r['r'], nn=r['nn'], perm=list(r['sym'][0]), signs=list(r['sym'][1])))
     for r in recs[:3]:
         ctx.sample('a=%s b=%s transforms %s' % (tok(r['A'])[:100], tok(r['B'])[:100], [(T[0], gen.tv(T[1]), str(T[2])) for T in r['trs']]))
 
@@ -190,6 +254,23 @@ def replay(ctx, case):
     from .. import impl
     c = case['case']
     A, B = gen.from_jsonable(c['a']), gen.from_jsonable(c['b'])
+    if 'builder' in c:
+        import Geometry3D as g3
+        from ..impl import Point, Vector
+        sym = (tuple(c['perm']), tuple(c['signs']))
+        cc, nn_ = tuple(F(x) for x in c['c']), tuple(F(x) for x in c['n'])
+        f = getattr(g3, c['builder'])
+
+        def bld(center, normal):
+            cp, dv = Point(*[float(x) for x in center]), Vector(*[float(x) for x in normal])
+            o = f(cp, dv, c['r'], c['nn']) if c['builder'] == 'Circle' else f(cp, c['r'], dv, c['nn'])
+            return (o.area(), getattr(o, 'volume', lambda: 0.0)())
+        r0 = impl.call(bld, cc, nn_)
+        r1 = impl.call(bld, sp(sym, cc), sp(sym, nn_))
+        print(c['builder'], 'original', r0, 'image', r1)
+        ok = r0[0] == r1[0] == 'ok' and all(close(y, x) for x, y in zip(r0[1], r1[1]))
+        print('AGREE' if ok else 'VIOLATION property=C13')
+        return 0 if ok else 1
     if 'perm' not in c:
         print(c)
         return 1
